@@ -74,6 +74,14 @@ def floatToIntExact? : Num → Option Int
   | .nzero => some 0
   | _ => none
 
+/-- the exponents for which `math.Ldexp` is modelled: it adds the argument's own exponent to the
+    count in Go `int` arithmetic, which wraps around next to MinInt64 (`ldexp(0.5; -2^63)` is
+    +Inf, not 0 — a quirk of the Go library, left outside the model and reported by the oracle) -/
+def ldexpCount? (r : Num) : Option Int :=
+  match floatToIntExact? r with
+  | some e => if -4611686018427387904 ≤ e ∧ e ≤ 4611686018427387904 then some e else none
+  | none => none
+
 /-- `math.Ldexp(x, e)` -/
 def fldexp (x : Num) (e : Int) : Num :=
   match x with
@@ -202,7 +210,7 @@ def mathFn2 (name : String) (l r : Num) : Option Num :=
   | "fmod" => some (ffmod l r)
   | "nextafter" => some (fnextafter l r)
   | "nexttoward" => some (fnextafter l r)
-  | "ldexp" | "scalb" | "scalbln" => (floatToIntExact? r).map (fldexp l)
+  | "ldexp" | "scalb" | "scalbln" => (ldexpCount? r).map (fldexp l)
   | _ => none
 
 /-- names dispatched through `mathFunc` (one float), `mathFunc2`, `mathFunc3` in func.go -/
